@@ -242,6 +242,29 @@ def run(db, tier):
         rep.check(checked, "R-LOSSY", "encode_args|%s|%d" % (t["f"].rsplit("::", 1)[-1], i + 1), "%s:%d" % (fe.file, t["ln"]),
                   "value comes from a checked conversion / constant", "%s of a value that did not pass a checked conversion" % t["f"])
 
+    # the same rule over the closures of encode_args and the helpers it calls in llir::lower (the reinterpreting closures
+    # `|x| x as i16` and fit_int_arg live there); shared implementation with C03
+    from props import c03
+    tbl = c03.load_table()
+    helpers = set()
+    for g in [fe] + list(db.children.get(fe.id, [])):
+        for _, t in g.calls():
+            c = t.get("fr") or t.get("f") or ""
+            c0 = t.get("f") or ""
+            for cand in (c, c0):
+                if cand.startswith("llir::lower::") and cand in db.fns and cand != fe.id:
+                    helpers.add(cand)
+    scope = list(db.children.get(fe.id, []))
+    for h in sorted(helpers):
+        scope.append(db.fns[h])
+        scope.extend(db.children.get(h, []))
+    n_aux = 0
+    for g in scope:
+        nc, _ = c03.lossy_in_fn(db, rep, g, tbl, set())
+        n_aux += nc
+    rep.extra["casts_in_encode_args_closures_and_helpers"] = n_aux
+    rep.floor("functions in the encode_args closure/helper scope", len(scope), 5)
+
     # ---- R-NOREG
     calls = [t.get("f") for _, t in fe.calls()]
     has = "llir::LanguageHooks::has_registers" in calls
